@@ -9,6 +9,7 @@ package logic
 // follows source order of OpSpecs, so an unchanged tree gives a byte-identical file.
 
 import (
+	"encoding/json"
 	"fmt"
 	"os"
 	"reflect"
@@ -141,8 +142,8 @@ func vCoqSpec(spec *OpSpec, g *vGroups) string {
 
 type vPoolEnt struct {
 	opcode, sub byte
-	version    uint64
-	text       string
+	version     uint64
+	text        string
 }
 
 func TestVerifAvmGen(t *testing.T) {
@@ -325,6 +326,94 @@ func TestVerifAvmGen(t *testing.T) {
 			ns = append(ns, vCoqStr(o))
 		}
 		fmt.Fprintf(&sb, "  (%s, [%s])", vCoqStr(n), strings.Join(ns, "; "))
+	}
+	sb.WriteString("].\n")
+
+	// ---- the repository's second source: langspec_v<K>.json (generated by cmd/opdoc and committed)
+	type lsArg struct {
+		Name         string
+		ByteEncoding int
+		Modes        int
+		Version      uint64
+	}
+	type lsOp struct {
+		Opcode            json.RawMessage
+		Name              string
+		IntroducedVersion uint64
+		Modes             int
+		ArgDetails        []lsArg
+	}
+	type lsFile struct {
+		Version uint64
+		Ops     []lsOp
+	}
+	opBytes := func(raw json.RawMessage) (int, int) {
+		var one int
+		if json.Unmarshal(raw, &one) == nil {
+			return one, 0
+		}
+		var two []int
+		if json.Unmarshal(raw, &two) == nil && len(two) == 2 {
+			return two[0], two[1]
+		}
+		return -1, -1
+	}
+	var lsVersions []int
+	var lsFiles []lsFile
+	for k := 1; k <= LogicVersion; k++ {
+		b, err := os.ReadFile(fmt.Sprintf("langspec_v%d.json", k))
+		if err != nil {
+			continue
+		}
+		var f lsFile
+		if err := json.Unmarshal(b, &f); err != nil {
+			t.Fatalf("langspec_v%d.json: %v", k, err)
+		}
+		lsVersions = append(lsVersions, k)
+		lsFiles = append(lsFiles, f)
+	}
+	sb.WriteString("\n(* langspec_v<K>.json, K = the versions for which the file exists: (K, [(opcode, sub-opcode, name,\n   IntroducedVersion, Modes)]) *)\nDefinition langspec_ops : list (N * list (N * N * string * N * N)) := [\n")
+	for i, f := range lsFiles {
+		if i > 0 {
+			sb.WriteString(";\n")
+		}
+		fmt.Fprintf(&sb, "  (%d, [", lsVersions[i])
+		for j, o := range f.Ops {
+			if j > 0 {
+				sb.WriteString("; ")
+			}
+			a, b := opBytes(o.Opcode)
+			fmt.Fprintf(&sb, "(%d, %d, %s, %d, %d)", a, b, vCoqStr(o.Name), o.IntroducedVersion, o.Modes)
+		}
+		sb.WriteString("])")
+	}
+	sb.WriteString("].\n\n")
+	latest := 0
+	if len(lsVersions) > 0 {
+		latest = lsVersions[len(lsVersions)-1]
+	}
+	fmt.Fprintf(&sb, "Definition langspec_latest : N := %d.\n", latest)
+	sb.WriteString("(* ArgDetails of the newest langspec: (opcode, sub-opcode, [(name, ByteEncoding, Modes (0 = same as the\n   opcode), Version)]) for every op that has them *)\nDefinition langspec_fields : list (N * N * list (string * N * N * N)) := [\n")
+	first := true
+	if latest > 0 {
+		for _, o := range lsFiles[len(lsFiles)-1].Ops {
+			if len(o.ArgDetails) == 0 {
+				continue
+			}
+			if !first {
+				sb.WriteString(";\n")
+			}
+			first = false
+			a, b := opBytes(o.Opcode)
+			fmt.Fprintf(&sb, "  (%d, %d, [", a, b)
+			for j, ad := range o.ArgDetails {
+				if j > 0 {
+					sb.WriteString("; ")
+				}
+				fmt.Fprintf(&sb, "(%s, %d, %d, %d)", vCoqStr(ad.Name), ad.ByteEncoding, ad.Modes, ad.Version)
+			}
+			sb.WriteString("])")
+		}
 	}
 	sb.WriteString("].\n")
 
